@@ -99,3 +99,359 @@ impl<T> StackArc<T> {
         std::sync::Arc::from_raw(&self.data as *const T)
     }
 }
+
+// ---------------------------------------------------------------------------------------------
+// Mocks of the crate's own traits (http_codec::Stream & co).  They record what they are given in
+// statics (single-threaded harnesses) and never touch I/O.
+// ---------------------------------------------------------------------------------------------
+pub(crate) mod mock {
+    use crate::http_codec::{self, RequestHeaders, ResponseHeaders};
+    use crate::{authentication, datagram_pipe, log_utils, pipe};
+    use bytes::Bytes;
+    use std::io;
+    use std::net::IpAddr;
+
+    pub(crate) static mut RESP_COUNT: usize = 0;
+    pub(crate) static mut RESP_STATUS: [u16; 4] = [0; 4];
+    pub(crate) static mut RESP_EOF: [bool; 4] = [false; 4];
+    pub(crate) static mut RESP_LAST: Option<ResponseHeaders> = None;
+    pub(crate) static mut INTERIM_COUNT: usize = 0;
+    pub(crate) static mut BAD_HEADERS: Option<Vec<(String, String)>> = None;
+    pub(crate) static mut SPLIT_COUNT: usize = 0;
+
+    pub(crate) fn reset() {
+        unsafe {
+            RESP_COUNT = 0;
+            INTERIM_COUNT = 0;
+            SPLIT_COUNT = 0;
+        }
+    }
+    pub(crate) fn resp_count() -> usize {
+        unsafe { RESP_COUNT }
+    }
+    pub(crate) fn resp_status(i: usize) -> u16 {
+        unsafe { RESP_STATUS[i] }
+    }
+    pub(crate) fn resp_eof(i: usize) -> bool {
+        unsafe { RESP_EOF[i] }
+    }
+    #[allow(static_mut_refs)]
+    pub(crate) fn bad_headers() -> &'static [(String, String)] {
+        unsafe { BAD_HEADERS.as_ref().map(|v| v.as_slice()).unwrap_or(&[]) }
+    }
+    #[allow(static_mut_refs)]
+    pub(crate) fn resp_last() -> Option<&'static ResponseHeaders> {
+        unsafe { RESP_LAST.as_ref() }
+    }
+
+    /// The mock HTTP stream.  It is meant to live in the harness's stack frame and be handed to the code
+    /// under test as `Box<dyn Stream>` through `verif_env::stack_box` (heap objects - and in particular
+    /// vtable pointers read back from them - are not constant-folded by symex, which makes every virtual
+    /// call fan out over all implementations of the trait).  Deallocation is stubbed out in such harnesses.
+    pub(crate) struct MockStream {
+        pub req: RequestHeaders,
+        pub client: IpAddr,
+    }
+    pub(crate) struct MockRespond;
+    pub(crate) struct MockResponded;
+    pub(crate) struct MockSink;
+    pub(crate) struct MockDropSink;
+    pub(crate) struct MockSource;
+
+    pub(crate) fn request(method: http::Method, uri: &'static str) -> RequestHeaders {
+        http::Request::builder().method(method).uri(http::Uri::from_static(uri)).body(()).unwrap().into_parts().0
+    }
+
+    pub(crate) fn new_stream(req: RequestHeaders) -> std::mem::ManuallyDrop<MockStream> {
+        std::mem::ManuallyDrop::new(MockStream { req, client: IpAddr::from([198, 51, 100, 7]) })
+    }
+
+    impl http_codec::Stream for MockStream {
+        fn id(&self) -> log_utils::IdChain<u64> {
+            log_utils::IdChain::empty()
+        }
+        fn request(&self) -> &dyn http_codec::PendingRequest {
+            self
+        }
+        fn split(self: Box<Self>) -> (Box<dyn http_codec::PendingRequest>, Box<dyn http_codec::PendingRespond>) {
+            unsafe {
+                SPLIT_COUNT += 1;
+            }
+            let raw = Box::into_raw(self);
+            (unsafe { Box::from_raw(raw) }, Box::new(MockRespond))
+        }
+    }
+
+    impl http_codec::PendingRequest for MockStream {
+        fn id(&self) -> log_utils::IdChain<u64> {
+            log_utils::IdChain::empty()
+        }
+        fn request(&self) -> &RequestHeaders {
+            &self.req
+        }
+        fn client_address(&self) -> io::Result<IpAddr> {
+            Ok(self.client)
+        }
+        fn finalize(self: Box<Self>) -> Box<dyn pipe::Source> {
+            let _ = Box::into_raw(self);
+            Box::new(MockSource)
+        }
+    }
+
+    impl http_codec::PendingRespond for MockRespond {
+        fn id(&self) -> log_utils::IdChain<u64> {
+            log_utils::IdChain::empty()
+        }
+        fn send_intermediate_response(&self, _: ResponseHeaders) -> io::Result<()> {
+            unsafe {
+                INTERIM_COUNT += 1;
+            }
+            Ok(())
+        }
+        #[allow(static_mut_refs)]
+        fn send_response(self: Box<Self>, response: ResponseHeaders, eof: bool) -> io::Result<Box<dyn http_codec::RespondedStreamSink>> {
+            unsafe {
+                if RESP_COUNT < 4 {
+                    RESP_STATUS[RESP_COUNT] = response.status.as_u16();
+                    RESP_EOF[RESP_COUNT] = eof;
+                }
+                RESP_COUNT += 1;
+                let old = RESP_LAST.replace(response);
+                core::mem::forget(old);
+            }
+            Ok(Box::new(MockResponded))
+        }
+        fn send_bad_response(self: Box<Self>, status: http::StatusCode, extra_headers: Vec<(String, String)>) -> io::Result<()> {
+            Self::record_bad(status, extra_headers);
+            Ok(())
+        }
+    }
+
+    impl MockRespond {
+        /// what `send_bad_response` would have put on the wire, recorded without building an `http::Response`
+        /// (HeaderMap insertion does not get through symex in useful time)
+        #[allow(static_mut_refs)]
+        fn record_bad(status: http::StatusCode, extra_headers: Vec<(String, String)>) {
+            unsafe {
+                if RESP_COUNT < 4 {
+                    RESP_STATUS[RESP_COUNT] = status.as_u16();
+                    RESP_EOF[RESP_COUNT] = true;
+                }
+                RESP_COUNT += 1;
+                let old = BAD_HEADERS.replace(extra_headers);
+                std::mem::forget(old);
+            }
+        }
+    }
+
+    impl http_codec::RespondedStreamSink for MockResponded {
+        fn into_pipe_sink(self: Box<Self>) -> Box<dyn pipe::Sink> {
+            Box::new(MockSink)
+        }
+        fn into_datagram_sink(self: Box<Self>) -> Box<dyn http_codec::DroppingSink> {
+            Box::new(MockDropSink)
+        }
+    }
+
+    impl http_codec::DroppingSink for MockDropSink {
+        fn write(&mut self, _data: Bytes) -> io::Result<datagram_pipe::SendStatus> {
+            Ok(datagram_pipe::SendStatus::Sent)
+        }
+    }
+
+    #[async_trait::async_trait]
+    impl pipe::Sink for MockSink {
+        fn id(&self) -> log_utils::IdChain<u64> {
+            log_utils::IdChain::empty()
+        }
+        fn write(&mut self, _data: Bytes) -> io::Result<Bytes> {
+            Ok(Bytes::new())
+        }
+        fn eof(&mut self) -> io::Result<()> {
+            Ok(())
+        }
+        async fn wait_writable(&mut self) -> io::Result<()> {
+            Ok(())
+        }
+    }
+
+    #[async_trait::async_trait]
+    impl pipe::Source for MockSource {
+        fn id(&self) -> log_utils::IdChain<u64> {
+            log_utils::IdChain::empty()
+        }
+        async fn read(&mut self) -> io::Result<pipe::Data> {
+            Ok(pipe::Data::Eof)
+        }
+        fn consume(&mut self, _size: usize) -> io::Result<()> {
+            Ok(())
+        }
+    }
+}
+
+// ---------------------------------------------------------------------------------------------
+// Scripted in-memory transport (tokio AsyncRead + AsyncWrite): serves a fixed reply script in segments
+// of at most `seg` bytes and records everything written.  Never pending; EOF after the script.
+// ---------------------------------------------------------------------------------------------
+pub(crate) struct ScriptedIo<const NR: usize, const NW: usize> {
+    pub script: [u8; NR],
+    pub script_len: usize,
+    pub rpos: usize,
+    pub seg: usize,
+    pub written: [u8; NW],
+    pub wlen: usize,
+    pub write_calls: usize,
+}
+
+impl<const NR: usize, const NW: usize> ScriptedIo<NR, NW> {
+    pub(crate) fn new(script: [u8; NR], script_len: usize, seg: usize) -> Self {
+        Self { script, script_len, rpos: 0, seg, written: [0; NW], wlen: 0, write_calls: 0 }
+    }
+}
+
+impl<const NR: usize, const NW: usize> tokio::io::AsyncRead for ScriptedIo<NR, NW> {
+    fn poll_read(self: Pin<&mut Self>, _cx: &mut Context<'_>, buf: &mut tokio::io::ReadBuf<'_>) -> Poll<std::io::Result<()>> {
+        let me = self.get_mut();
+        let mut n = me.script_len - me.rpos;
+        if n > me.seg {
+            n = me.seg;
+        }
+        if n > buf.remaining() {
+            n = buf.remaining();
+        }
+        let mut i = 0;
+        while i < n {
+            buf.put_slice(&[me.script[me.rpos + i]]);
+            i += 1;
+        }
+        me.rpos += n;
+        Poll::Ready(Ok(()))
+    }
+}
+
+impl<const NR: usize, const NW: usize> tokio::io::AsyncWrite for ScriptedIo<NR, NW> {
+    fn poll_write(self: Pin<&mut Self>, _cx: &mut Context<'_>, data: &[u8]) -> Poll<std::io::Result<usize>> {
+        let me = self.get_mut();
+        me.write_calls += 1;
+        let mut i = 0;
+        while i < data.len() {
+            if me.wlen < NW {
+                me.written[me.wlen] = data[i];
+            }
+            me.wlen += 1;
+            i += 1;
+        }
+        Poll::Ready(Ok(data.len()))
+    }
+    fn poll_flush(self: Pin<&mut Self>, _cx: &mut Context<'_>) -> Poll<std::io::Result<()>> {
+        Poll::Ready(Ok(()))
+    }
+    fn poll_shutdown(self: Pin<&mut Self>, _cx: &mut Context<'_>) -> Poll<std::io::Result<()>> {
+        Poll::Ready(Ok(()))
+    }
+}
+
+/// Replacement for `core::str::from_utf8` in harnesses whose strings are ASCII constants chosen by the
+/// harness: accepts without scanning (`run_utf8_validation`'s alignment-dependent fast path explodes in symex).
+pub(crate) fn from_utf8_accept(v: &[u8]) -> Result<&str, core::str::Utf8Error> {
+    Ok(unsafe { core::str::from_utf8_unchecked(v) })
+}
+
+/// A `Box<T>` that points into the caller's stack frame (see `mock::MockStream`).  Only for harnesses that stub
+/// `<Global as Allocator>::deallocate` (STUB "nofree"): the box is "freed" by the code under test.
+pub(crate) fn stack_box<T>(slot: &mut std::mem::ManuallyDrop<T>) -> Box<T> {
+    unsafe { Box::from_raw(&mut **slot as *mut T) }
+}
+
+/// No-op replacement for `<Global as Allocator>::deallocate`: nothing is ever freed in harnesses that use
+/// stack-resident boxes; use-after-free and leaks are outside every claim.
+pub(crate) unsafe fn global_dealloc_noop(_g: &std::alloc::Global, _ptr: std::ptr::NonNull<u8>, _layout: std::alloc::Layout) {}
+
+/// A pipe::Sink that accepts a harness-chosen prefix of every write and records what it accepted.
+pub(crate) mod prefix_sink {
+    use crate::{log_utils, pipe};
+    use bytes::Bytes;
+    use std::io;
+
+    pub(crate) static mut ACCEPT: [usize; 4] = [0; 4]; // bytes accepted by the i-th write (clamped to what is offered)
+    pub(crate) static mut WRITES: usize = 0;
+    pub(crate) static mut OFFERED: [usize; 4] = [0; 4];
+    pub(crate) static mut LOG: [u8; 32] = [0; 32];
+    pub(crate) static mut LOG_LEN: usize = 0;
+    pub(crate) static mut EOFS: usize = 0;
+    pub(crate) static mut WAITS: usize = 0;
+    pub(crate) static mut WRITE_AFTER_EOF: bool = false;
+
+    pub(crate) fn reset(accept: [usize; 4]) {
+        unsafe {
+            ACCEPT = accept;
+            WRITES = 0;
+            LOG_LEN = 0;
+            EOFS = 0;
+            WAITS = 0;
+            WRITE_AFTER_EOF = false;
+        }
+    }
+    pub(crate) fn writes() -> usize {
+        unsafe { WRITES }
+    }
+    pub(crate) fn offered(i: usize) -> usize {
+        unsafe { OFFERED[i] }
+    }
+    pub(crate) fn log_len() -> usize {
+        unsafe { LOG_LEN }
+    }
+    pub(crate) fn log(i: usize) -> u8 {
+        unsafe { LOG[i] }
+    }
+    pub(crate) fn eofs() -> usize {
+        unsafe { EOFS }
+    }
+    pub(crate) fn write_after_eof() -> bool {
+        unsafe { WRITE_AFTER_EOF }
+    }
+
+    pub(crate) struct PrefixSink;
+
+    #[async_trait::async_trait]
+    impl pipe::Sink for PrefixSink {
+        fn id(&self) -> log_utils::IdChain<u64> {
+            log_utils::IdChain::empty()
+        }
+        fn write(&mut self, mut data: Bytes) -> io::Result<Bytes> {
+            unsafe {
+                if EOFS > 0 {
+                    WRITE_AFTER_EOF = true;
+                }
+                let i = if WRITES < 4 { WRITES } else { 3 };
+                OFFERED[i] = data.len();
+                let mut n = ACCEPT[i];
+                if n > data.len() {
+                    n = data.len();
+                }
+                let mut k = 0;
+                while k < n {
+                    if LOG_LEN < 32 {
+                        LOG[LOG_LEN] = data[k];
+                    }
+                    LOG_LEN += 1;
+                    k += 1;
+                }
+                WRITES += 1;
+                Ok(data.split_off(n))
+            }
+        }
+        fn eof(&mut self) -> io::Result<()> {
+            unsafe {
+                EOFS += 1;
+            }
+            Ok(())
+        }
+        async fn wait_writable(&mut self) -> io::Result<()> {
+            unsafe {
+                WAITS += 1;
+            }
+            Ok(())
+        }
+    }
+}
